@@ -22,7 +22,9 @@ LEVEL_TEXT = ('The evaluation log is a ghost sequence appended to by every '
               'never evaluate the operand they do not select.')
 LEVEL_NOTE = ('Per-element lambda multiplicity is proved for the hand-written '
               'loops listed above; where/select/takeWhile/skipWhile/'
-              'aggregate delegate to builtins (T-lazy); join, selectMany, '
+              'aggregate delegate to builtins (T-lazy); join: each result is '
+              'selector(row, inner) of a pair satisfying the predicate; '
+              'selectMany, '
               'groupBy, generateMany and the orderBy comparator multiplicity '
               'are not claimed. Shapes bound the '
               'numbers of candidates and arguments, not their content.')
@@ -48,6 +50,8 @@ def units(ctx):
            for c in colls.wrapper_contracts() if 'C14' in c.serves]
     us += [contract_unit(c, world_setup=colls.setup_mem)
            for c in colls.memorize_contracts()]
+    us += [contract_unit(c, world_setup=colls.setup_mem)
+           for c in colls.join_contracts()]
     from contracts import evalglue as _eg
     from vlib.pyvc.unit import contract_unit as _cu
     us += [_cu(c, world_setup=_eg.setup_nodes) for c in _eg.node_contracts()]
